@@ -2,16 +2,17 @@ import Rooc.Wire
 import Rooc.Oracle
 import Rooc.Pre.Wire
 import Rooc.Pre.IterWire
+import Rooc.Pre.Graph
 namespace Rooc.Drv.C06
 open Rooc Sexp Rooc.Pre
 
 def decInts (xs : List Sexp) : Option (List Int) :=
-  optAll (xs.map fun | .atom s => decInt s | _ => none)
+  optAll (xs.map fun | .atom s => decIntStr s | _ => none)
 def encInt (i : Int) : Sexp := .atom (toString i)
 def encNatRow (r : List Int) : Sexp := .list (r.map encInt)
 
 partial def decTree : Sexp → Option (Tree Int)
-  | .list [.atom "leaf", .atom s] => (decInt s).map .leaf
+  | .list [.atom "leaf", .atom s] => (decIntStr s).map .leaf
   | .list (.atom "node" :: cs) => (optAll (cs.map decTree)).map .node
   | _ => none
 partial def encTree : Tree Int → Sexp
@@ -21,7 +22,7 @@ partial def encTree : Tree Int → Sexp
 /-- one printed index fragment; `none` = `WrongExpectedArgument` -/
 def decFrag : Sexp → Option (Option String)
   | .list [.atom "numtext", .str s] => some (some s)
-  | .list [.atom "int", .atom s] => (decInt s).map (fun i => some (toString i))
+  | .list [.atom "int", .atom s] => (decIntStr s).map (fun i => some (toString i))
   | .list [.atom "pint", .atom s] => s.toNat?.map (fun n => some (toString n))
   | .list [.atom "bool", .atom "true"] => some (some "T")
   | .list [.atom "bool", .atom "false"] => some (some "F")
@@ -30,13 +31,42 @@ def decFrag : Sexp → Option (Option String)
   | .list [.atom "other", _] => some none
   | _ => none
 
+def decEdge (src : String) : Sexp → Option (GEdge Float)
+  | .list [.atom "edge", .str d, .atom "none"] => some ⟨src, d, none⟩
+  | .list [.atom "edge", .str d, w] => (decNumS w : Option Float).map (fun x => ⟨src, d, some x⟩)
+  | _ => none
+def decNode : Sexp → Option (GNode Float)
+  | .list (.atom "node" :: .str n :: es) => (optAll (es.map (decEdge n))).map (fun es => ⟨n, es⟩)
+  | _ => none
+def decGraph : Sexp → Option (Graph Float)
+  | .list (.atom "graph" :: ns) => optAll (ns.map decNode)
+  | _ => none
+def encSpread (e : GEdge Float) : Sexp := .list [.str e.spread.1, .str e.spread.2.1, encNum e.spread.2.2]
+
+def decSVal : Sexp → Option (SVal Float)
+  | .list [.atom "num", x] => (decNumS x : Option Float).map .num
+  | .list [.atom "str", .str s] => some (.str s)
+  | .list [.atom "bool", .atom b] => some (.bool (b == "true"))
+  | _ => none
+/-- the name fragment Rust prints for the test values (integers and halves) -/
+def halfText (x : Float) : String :=
+  let neg := x < 0
+  let a := if neg then -x else x
+  let fl := Float.floor a
+  let body := if a == fl then toString (fl.toUInt64) else toString (fl.toUInt64) ++ ".5"
+  if neg then "-" ++ body else body
+def svalText : SVal Float → String
+  | .num x => halfText x
+  | .str s => s
+  | .bool b => if b then "T" else "F"
+
 def handleF : List Sexp → Sexp
   | [.atom "fold", .atom kind, .list leaves] =>
     match AggKind.ofName kind, (optAll (leaves.map Exp.dec) : Option (List (Exp Float))) with
     | some k, some xs => (match aggregate k xs with | some e => app "ok" [e.enc] | none => app "err" [.atom "Unexpected", .atom "token"])
     | _, _ => app "err" [.atom "decode"]
   | [.atom "range", .atom lo, .atom hi, .atom inc] =>
-    match decInt lo, decInt hi with
+    match decIntStr lo, decIntStr hi with
     | some lo, some hi => app "ok" ((rangeVals lo hi (inc == "true")).map (fun i => .list [encInt i]))
     | _, _ => app "err" [.atom "decode"]
   | [.atom "enumerate", .list xs] =>
@@ -75,6 +105,36 @@ def handleF : List Sexp → Sexp
        | .ok (some r) => app "ok" [encTree r]
        | .error _ => app "err" [.atom "OutOfBounds"])
     | _, _ => app "err" [.atom "decode"]
+  | [.atom "graph", .atom what, g] =>
+    match decGraph g with
+    | none => app "err" [.atom "decode"]
+    | some g =>
+      match what with
+      | "edges" => app "ok" (g.edges.map encSpread)
+      | "nodes" => app "ok" (g.nodes.map (fun n => .str n.name))
+      | "neighall" => app "ok" ((g.nodes.flatMap (fun n => (Graph.neighEdges n).map (fun e => (n.name, e)))).map
+          (fun p => .list [.str p.1, .str p.2.spread.2.1, encNum p.2.spread.2.2]))
+      | _ => app "err" [.atom "bad-request"]
+  | [.atom "graph", .atom "neighof", g, .str name] =>
+    match decGraph g with
+    | none => app "err" [.atom "decode"]
+    | some g => (match Graph.neighEdgesOf name g with
+      | some es => app "ok" (es.map (fun e => .list [.str e.spread.2.1, encNum e.spread.2.2]))
+      | none => app "err" [.atom "Other"])
+  | [.atom "svset", .atom f, .list a, .list b] =>
+    match optAll (a.map decSVal), optAll (b.map decSVal) with
+    | some a, some b =>
+      let r := match f with | "union" => svalUnion a b | "intersection" => svalInter a b | _ => svalDiff a b
+      app "ok" (r.map (fun v => .str (svalText v)))
+    | _, _ => app "err" [.atom "decode"]
+  | [.atom "transformprog", p] =>
+    match ProgM.dec p with
+    | some p => (match (transformProg p : Except IErr (Model Float)) with | .ok m => app "ok" [m.enc] | .error _ => app "err" [])
+    | none => app "err" [.atom "decode"]
+  | [.atom "unrollprogtext", p] =>
+    match ProgM.dec p with
+    | some p => if !p.arityOk then app "err" [] else (match unrollProg p with | .ok u => app "ok" [.str u.text] | .error _ => app "err" [])
+    | none => app "err" [.atom "decode"]
   | [.atom "expandme", e] =>
     match ME.dec e with
     | some e => (match (expandChecked e : Except IErr (Exp Float)) with | .ok x => app "ok" [x.enc] | .error _ => app "err" [])
